@@ -1,9 +1,10 @@
 // limbgen: translator from the limb-level field routines of
 // iden3/go-iden3-crypto (packages ff and ffg) to Gallina.
 //
-//	limbgen <repo> <verif>
+//	limbgen [-noaliascheck] <repo> <verif>
 //
-// writes <verif>/coq/Gen/FfRoutines.v and <verif>/coq/Gen/FfgRoutines.v, then
+// writes <verif>/coq/Gen/FfRoutines.v and <verif>/coq/Gen/FfgRoutines.v (and
+// their memory-level counterparts Gen/FfMem.v, Gen/FfgMem.v, see mem.go), then
 // <verif>/coq/Gen/FfGlue.v and <verif>/coq/Gen/FfgGlue.v (a file is rewritten
 // only when its content changes).  The hand-written models
 // Model/FfLimbs.v and Model/FfgLimbs.v, which all theorems are about, are tied
@@ -89,6 +90,9 @@
 //     CHECKS this on every path of every translated function (per limb, calls
 //     count as "read all in-arguments, then write all out-arguments") and
 //     exits 1 on a violation.  Local Element variables are distinct memory.
+//     This check is a fast pre-check only: the same statement is PROVED, for
+//     every aliasing pattern, in Proofs/Ff{,g}MemEq.v from the memory-level
+//     translation (mem.go; README.md "Memory-level output").
 //     The only exception is listed in `noalias` below: _butterflyGeneric(a, b)
 //     is translated under the assumption a != b (it is wrong in Go as well as
 //     in the model when a == b); the generated file says so.
@@ -116,7 +120,14 @@ import (
 	"fmt"
 	"os"
 	"path/filepath"
+	"strings"
 )
+
+// noAliasCheck (flag -noaliascheck, for the self-test only): the syntactic
+// per-limb aliasing pre-check of the limb-level translator (access.go) only
+// WARNS, so that the lemmas of Proofs/Ff{,g}MemEq.v are what rejects a
+// routine that is wrong for in-place calls.
+var noAliasCheck bool
 
 type config struct {
 	pkgDir  string   // directory under <repo>
@@ -197,11 +208,22 @@ func writeIfChanged(path string, content []byte) {
 }
 
 func main() {
-	if len(os.Args) != 3 {
-		fmt.Fprintln(os.Stderr, "usage: limbgen <repo> <verif>")
+	args := os.Args[1:]
+	for len(args) > 0 && strings.HasPrefix(args[0], "-") {
+		switch args[0] {
+		case "-noaliascheck":
+			noAliasCheck = true
+		default:
+			fmt.Fprintln(os.Stderr, "limbgen: unknown flag", args[0])
+			os.Exit(2)
+		}
+		args = args[1:]
+	}
+	if len(args) != 2 {
+		fmt.Fprintln(os.Stderr, "usage: limbgen [-noaliascheck] <repo> <verif>")
 		os.Exit(2)
 	}
-	repo, verif := os.Args[1], os.Args[2]
+	repo, verif := args[0], args[1]
 	nfail := 0
 	for i := range configs {
 		cfg := &configs[i]
@@ -211,6 +233,7 @@ func main() {
 		}
 		out := p.emitFile()
 		writeIfChanged(filepath.Join(verif, "coq", "Gen", cfg.module+".v"), []byte(out))
+		writeIfChanged(filepath.Join(verif, "coq", "Gen", strings.TrimSuffix(cfg.module, "Routines")+"Mem.v"), []byte(p.emitMemFile()))
 		nfail += runGlue(p, verif)
 	}
 	if nfail > 0 {
